@@ -1,9 +1,16 @@
 use crate::rt::Ctx;
 
+pub mod c01;
+pub mod c02;
+pub mod c05;
 pub mod c16;
+pub mod offtrait;
 
 pub fn dispatch(ctx: &mut Ctx) -> bool {
     match ctx.prop.as_str() {
+        "C01" => c01::run(ctx),
+        "C02" => c02::run(ctx),
+        "C05" => c05::run(ctx),
         "C16" => c16::run(ctx),
         _ => return false,
     }
